@@ -22,11 +22,14 @@ package routing
 
 // Accepted link-state data makes every node it names a vertex of the graph (so that the edges computed from it refer
 // to known vertices); data is accepted only from an unknown sender or with a strictly newer timestamp.
-// govc:func (*DTLSR).NotifyNewBundle property C20
+// govc:func (*DTLSR).NotifyNewBundle property C20 C13
 //@ requires dtlsr.c != nil && dtlsr.c.store != nil && dtlsr.receivedData != nil && dtlsr.nodeIndex != nil && len(dtlsr.indexNode) == dtlsr.length && 0 <= dtlsr.length
 //@ requires bp.bndl != nil && blocksNonNil(*bp.bndl) && dtlsrTyped(*bp.bndl)
 //@ ghost n bpv7.EndpointID
+//@ requires prevUnique(*bp.bndl)
+//@ let props := uf("propsOf", "map[string]interface{}", dtlsr.c.store, bp.Id)
 //@ atcall newNode: dtlsr.length < 4611686018427387904 ==> true
+//@ ensures dtlsr.c.store.$qok ==> forall j int :: 0 <= j && j < len(bp.bndl.CanonicalBlocks) && bp.bndl.CanonicalBlocks[j].Value.BlockTypeCode() == 6 ==> has(props, "routing/dtlsr/sent") && is(props["routing/dtlsr/sent"], []bpv7.EndpointID) && len(props["routing/dtlsr/sent"].([]bpv7.EndpointID)) >= 1 && props["routing/dtlsr/sent"].([]bpv7.EndpointID)[len(props["routing/dtlsr/sent"].([]bpv7.EndpointID)) - 1] == bpv7.EndpointID(*(bp.bndl.CanonicalBlocks[j].Value.(*bpv7.PreviousNodeBlock))) @C13
 //@ atcall ShouldReplace: has(dtlsr.receivedData, data.ID) && arg1.Timestamp == dtlsr.receivedData[data.ID].Timestamp && arg0.Timestamp == data.Timestamp
 //@ loop 0 invariant dtlsr.nodeIndex != nil && len(dtlsr.indexNode) == dtlsr.length && 0 <= dtlsr.length
 //@ loop 0 invariant visited(data.Peers, n) ==> has(dtlsr.nodeIndex, n) @thorough
